@@ -16,17 +16,21 @@ Tr == Traces[tid].ev
 More == ln <= Len(Tr)
 
 TInit == /\ tid \in 1..Len(Traces) /\ ln = 1 /\ now = 0
-         /\ s = [ ready |-> <<>>, todo |-> 0, timers |-> {}, outs |-> <<>>, ev |-> 0, idle |-> 0,
-                  sessIn |-> <<>>, sessOut |-> <<>>, peer |-> <<>>, watch |-> Cfg.watch0, wkeys |-> UNION Range(Cfg.watch0) \ {"ALL"},
-                  store |-> [found |-> {}, ts |-> {}] ]
+         /\ Init
 
 \* ---------------------------------------------------------------- comparing observables
 \* the observable content of an output event (what a trace line is compared on)
-EntryKey(en) == <<en.ty, en.svc, en.ttl>>
+EntryKey(en) == IF en.ty \in {"sub", "ack"} THEN <<en.ty, en.svc, en.eg, en.ctr, en.ttl>> ELSE <<en.ty, en.svc, en.ttl>>
+SubK(x) == <<x.svc, x.eg, x.ctr, x.eps>>
 Key(o) ==
-  CASE o.op \in {"offered", "stopped"} -> <<o.op, o.lst, o.svc, o.src>>
+  CASE o.k = "rand" -> <<"rand", o.lo, o.hi, o.val>>
+    [] o.k = "exc" -> <<"exc">>
+    [] o.op \in {"offered", "stopped"} -> <<o.op, o.lst, o.svc, o.src>>
     [] o.op \in {"new", "gone"} -> <<o.op, o.a, o.key>>
     [] o.op = "reboot" -> <<o.op, o.comp, o.a>>
+    [] o.op = "cl_applied" -> <<o.op, o.comp>>
+    [] o.op = "subscribed" -> <<o.op, o.inst, SubK(o.sub), o.src, o.acc>>
+    [] o.op = "unsubscribed" -> <<o.op, o.inst, SubK(o.sub), o.src>>
     [] o.op = "tx" -> <<o.op, o.dst, o.sid, o.rb, [i \in DOMAIN o.es |-> EntryKey(o.es[i])]>>
     [] OTHER -> <<o.op>>
 BagEq(a, b) ==
@@ -38,7 +42,7 @@ BagEq(a, b) ==
 MatchFrom(outs, from) ==
   LET n == Len(outs) IN
   /\ from + n - 1 <= Len(Tr)
-  /\ \A i \in 1..n : Tr[from + i - 1].k = "out" /\ Tr[from + i - 1].t = now
+  /\ \A i \in 1..n : Tr[from + i - 1].k \in {"out", "rand", "exc"} /\ Tr[from + i - 1].t = now
   /\ BagEq([i \in 1..n |-> Key(outs[i])], [i \in 1..n |-> Key(Tr[from + i - 1])])
 
 \* ---------------------------------------------------------------- steps
@@ -59,10 +63,10 @@ TRun ==
          s0 == [s EXCEPT !.ready = Tail(@), !.todo = @ - 1, !.outs = <<>>]
      IN IF c.kind = "slot"
         THEN /\ More /\ Tr[ln].k = "in" /\ Tr[ln].t = now
-             /\ s' = Effect(s0, [kind |-> "input", e |-> Tr[ln]])
+             /\ \E ch \in Cfg.randVals : s' = [Effect([s0 EXCEPT !.ch = ch], [kind |-> "input", e |-> Tr[ln]]) EXCEPT !.ch = 0]
              /\ MatchFrom(Tail(s'.outs), ln + 1)
              /\ ln' = ln + Len(s'.outs)
-        ELSE /\ s' = Effect(s0, c)
+        ELSE /\ \E ch \in Cfg.randVals : s' = [Effect([s0 EXCEPT !.ch = ch], c) EXCEPT !.ch = 0]
              /\ MatchFrom(s'.outs, ln)
              /\ ln' = ln + Len(s'.outs)
   /\ UNCHANGED <<tid, now>>
